@@ -464,16 +464,46 @@ func fieldOffsets(st *types.Struct) []int64 {
 }
 
 func (m *Machine) symPtrLoad(T types.Type, p Ptr) Value {
-	// ite-chain over the possible element indexes; scalars only
-	if p.Cnt > 512 {
-		m.unsupported("symbolic index over %d elements", p.Cnt)
-	}
+	// ite-chain over the possible element indexes for scalars
 	b, ok := T.Underlying().(*types.Basic)
 	if !ok || b.Info()&(types.IsInteger|types.IsBoolean|types.IsFloat) == 0 {
-		// fall back to case split
-		idx := m.concretize(p.Sym, 0, p.Cnt-1, "index")
-		q := Ptr{ID: p.ID, Off: p.Off + idx*p.Stride}
-		return m.Load(T, q)
+		// non-scalar elements (e.g. a lookup table of structs): most entries
+		// are usually identical (zero); split on the entries that differ from
+		// the most common value and treat the rest as one case
+		if p.Cnt > 8192 {
+			m.unsupported("symbolic index over %d elements", p.Cnt)
+		}
+		vals := make([]Value, p.Cnt)
+		keys := make([]string, p.Cnt)
+		count := map[string]int{}
+		for i := int64(0); i < p.Cnt; i++ {
+			vals[i] = m.Load(T, Ptr{ID: p.ID, Off: p.Off + i*p.Stride})
+			keys[i] = valueKey(vals[i])
+			count[keys[i]]++
+		}
+		def, best := "", -1
+		for i := int64(0); i < p.Cnt; i++ {
+			if c := count[keys[i]]; c > best {
+				def, best = keys[i], c
+			}
+		}
+		if int(p.Cnt)-best > 64 {
+			m.unsupported("symbolic index over %d distinct non-scalar elements", int(p.Cnt)-best)
+		}
+		var defVal Value
+		for i := int64(0); i < p.Cnt; i++ {
+			if keys[i] == def {
+				defVal = vals[i]
+				continue
+			}
+			if m.branch(m.st.Eq(p.Sym, m.st.Const(p.Sym.W, uint64(i)))) {
+				return vals[i]
+			}
+		}
+		return defVal
+	}
+	if p.Cnt > 512 {
+		m.unsupported("symbolic index over %d scalar elements", p.Cnt)
 	}
 	var res *Term
 	for i := p.Cnt - 1; i >= 0; i-- {
@@ -819,4 +849,47 @@ func (m *Machine) stringEq(a, b StringVal) *Term {
 		r = m.st.BAnd(r, m.st.Eq(x[i], y[i]))
 	}
 	return r
+}
+
+
+// valueKey is a structural fingerprint of a value (used to group identical
+// table entries).
+func valueKey(v Value) string {
+	switch x := v.(type) {
+	case nil:
+		return "nil"
+	case *Term:
+		if x.IsConst() {
+			return fmt.Sprintf("c%d:%d", x.W, x.K)
+		}
+		return fmt.Sprintf("t%d", x.id)
+	case Ptr:
+		return fmt.Sprintf("p%d+%d", x.ID, x.Off)
+	case TypeTok:
+		return "T" + x.T.String()
+	case *Closure:
+		return fmt.Sprintf("f%p", x)
+	case StringVal:
+		return fmt.Sprintf("s%d+%d:%d", x.P.ID, x.P.Off, x.Len)
+	case SliceVal:
+		return fmt.Sprintf("l%d+%d:%d:%d", x.P.ID, x.P.Off, x.Len, x.Cap)
+	case IfaceVal:
+		if x.T == nil {
+			return "i-nil"
+		}
+		return "i(" + x.T.String() + ")" + valueKey(x.V)
+	case StructVal:
+		s := "{"
+		for _, f := range x {
+			s += valueKey(f) + ","
+		}
+		return s + "}"
+	case ArrayVal:
+		s := "["
+		for _, f := range x {
+			s += valueKey(f) + ","
+		}
+		return s + "]"
+	}
+	return fmt.Sprintf("?%T", v)
 }
